@@ -229,10 +229,47 @@ def run_case(ns, ctx, c):
             return ("N", 0.0, g / math.sqrt(fan))
         return None
     x = t.data.astype(np.float64).ravel()
+    # every fill is a fresh, independent sample / constant: a second tensor of the same shape and dtype filled right afterwards shares no storage
+    # with the first, keeps its values when the first is updated in place (what optimizers do), and - for the random fillers - is a different draw
+    first = t.data.copy()
+    t_first = t
+    t = T(np.full(shp, 7.0, dtype=dt), requires_grad=c["req"])
+    try:
+        call()
+    except Exception as e:
+        return {"viol": [V(f"{name}:raises:second-fill", f"{name} raised {type(e).__name__} on a second tensor", error=str(e)[:200])], "counters": counters}
+    second, t_second = t.data.copy(), t
+    t = t_first
+    counters["independence_checks"] = 1
+    if isinstance(t_second.data, np.ndarray) and np.shares_memory(t_first.data, t_second.data):
+        viol.append(V(f"{name}:fills-share-storage", "two tensors filled by the same initialiser share one array"))
+    t_first.data[...] = t_first.data - 0.5                       # in-place update of the first tensor
+    if not np.array_equal(t_second.data, second):
+        viol.append(V(f"{name}:fill-follows-another-tensor", "a filled tensor changed when another tensor filled earlier was updated in place"))
+    t_first.data[...] = first
+    if name not in ("constant_", "ones_", "zeros_") and first.size >= 8:
+        if np.array_equal(first, second):
+            viol.append(V(f"{name}:consecutive-fills-identical", "two consecutive fills returned the same sample"))
+        else:
+            f64, s64 = first.astype(np.float64).ravel(), second.astype(np.float64).ravel()
+            if f64.std() > 0 and s64.std() > 0 and first.size >= 50:
+                corr = float(np.corrcoef(f64, s64)[0, 1])
+                # independent draws: corr ~ N(0, 1/n); 0.9 is > 6 sigma for n >= 50
+                if abs(corr) > 0.9:
+                    viol.append(V(f"{name}:consecutive-fills-correlated", f"two consecutive fills are correlated (r = {corr:.4f})"))
     if name in ("constant_", "ones_", "zeros_"):
         want = {"constant_": a.get("val"), "ones_": 1.0, "zeros_": 0.0}[name]
-        if not np.all(t.data == np.asarray(want, dtype=dt)):
-            viol.append(V(f"{name}:value", f"tensor not filled with {want}"))
+        for which, arr in (("first", first), ("second", second)):
+            if not np.all(arr == np.asarray(want, dtype=dt)):
+                viol.append(V(f"{name}:value", f"tensor not filled with {want} ({which} fill)"))
+        t3 = T(np.full(shp, 7.0, dtype=dt), requires_grad=c["req"])
+        t_first.data[...] = -3.0                                     # the first tensor moves on (training); a later fill is still the constant
+        t = t3
+        call()
+        t = t_first
+        if not np.all(t3.data == np.asarray(want, dtype=dt)):
+            viol.append(V(f"{name}:value:after-earlier-fill-was-updated", f"a later fill is not {want} after an earlier filled tensor was updated in place"))
+        t_first.data[...] = first
         return {"key": None, "viol": viol, "counters": counters, "cover": {"initialisers": [name]}}
     sp = spec()
 
